@@ -25,6 +25,11 @@ class Broken(Exception):
     """The machinery could not do its job (not a verdict about the property)."""
 
 
+class AnchorMissing(Broken):
+    """A function, impl method or constant a rule is anchored in is not in the current source: the rule can no longer establish
+    its clause there — the launcher reports it as a fail-closed violation (exit 1), not as broken machinery."""
+
+
 def _sysroot():
     return subprocess.check_output(["rustc", "+nightly", "--print", "sysroot"], text=True).strip()
 
@@ -230,7 +235,7 @@ class Facts:
     def fn(self, path):
         f = self.fns.get(path)
         if f is None:
-            raise Broken(f"anchor function not found: {path}")
+            raise AnchorMissing(f"anchor function not found: {path}")
         return f
 
     def find_fns(self, pred):
@@ -247,13 +252,13 @@ class Facts:
                     f.path.rsplit("::", 1)[-1] == name:
                 res.append(f)
         if len(res) != 1:
-            raise Broken(f"anchor impl method not found or ambiguous: <{self_ty} as {trait}>::{name} ({len(res)})")
+            raise AnchorMissing(f"anchor impl method not found or ambiguous: <{self_ty} as {trait}>::{name} ({len(res)})")
         return res[0]
 
     def const_value(self, path):
         c = self.consts.get(path) or self.const_statics.get(path)
         if c is None:
-            raise Broken(f"constant not found: {path}")
+            raise AnchorMissing(f"constant not found: {path}")
         return c.get("value")
 
 
